@@ -15,6 +15,14 @@ THEOREMS = [
     "HedVerif.C02.unbalanced_empty",
     "HedVerif.C02.mismatch_reported",
     "HedVerif.C02.count_only_counterexample",
+    "HedVerif.C02.nesting_depth",
+    "HedVerif.C02.nesting_depth_count",
+    "HedVerif.C02.nesting_group_span",
+    "HedVerif.C02.tags_are_maximal_trimmed_runs",
+    "HedVerif.C02.roundtrip_original",
+    "HedVerif.C02.roundtrip_form",
+    "HedVerif.C02.reparse_original",
+    "HedVerif.C02.print_is_render",
 ]
 BUDGET = {"quick": 900, "thorough": 3600}
 ALPHA = "a ,()/"
